@@ -29,6 +29,7 @@ import (
 	"errors"
 	"fmt"
 	"sort"
+	"strconv"
 	"strings"
 	"sync"
 	"testing"
@@ -43,10 +44,12 @@ type apiCfg struct {
 	Kind   string `json:"kind"`   // plain | loading | loading-bwl | hybrid | hybrid-loading | loading-hybrid
 	CostFn bool   `json:"costfn"` // Builder.Cost installed
 	Pool   bool   `json:"pool"`   // UseEntryPool
+	StrKey bool   `json:"strkey"` // StringKey installed (an equality-respecting key -> string function)
+	DK     bool   `json:"dk"`     // Doorkeeper (plain kind only: the first Set of an unseen key may be refused)
 }
 
 func (c apiCfg) String() string {
-	return fmt.Sprintf("%s costfn=%v pool=%v", c.Kind, c.CostFn, c.Pool)
+	return fmt.Sprintf("%s costfn=%v pool=%v strkey=%v dk=%v", c.Kind, c.CostFn, c.Pool, c.StrKey, c.DK)
 }
 
 type apiOp struct {
@@ -143,6 +146,12 @@ func apiBuild(cfg apiCfg) (*apiWorld, error) {
 	b := NewBuilder[int, int](apiMax).RemovalListener(w.listener).UseEntryPool(cfg.Pool)
 	if cfg.CostFn {
 		b = b.Cost(apiCost)
+	}
+	if cfg.StrKey {
+		b = b.StringKey(func(k int) string { return "key-" + strconv.Itoa(k) })
+	}
+	if cfg.DK {
+		b = b.Doorkeeper(true)
 	}
 	var err error
 	switch cfg.Kind {
@@ -333,6 +342,7 @@ func apiExec(res *vh.Result, prop string, cfg apiCfg, ops []apiOp) string {
 		w.sec.log = nil
 	}
 	var obs []string
+	dkSeen := map[int]bool{}
 	for i, op := range ops {
 		switch op.Kind {
 		case "set", "set0", "setttl":
@@ -355,6 +365,12 @@ func apiExec(res *vh.Result, prop string, cfg apiCfg, ops []apiOp) string {
 			want := eff <= apiMax
 			got := w.set(op.K, v, cost, ttl)
 			obs = append(obs, fmt.Sprint(got))
+			if _, present := ref.val[op.K]; cfg.DK && want && !present && !dkSeen[op.K] {
+				// doorkeeper: the first insertion of a key the filter has not seen is refused (or, on a filter collision,
+				// accepted): either verdict is right, and the key counts as seen from now on
+				dkSeen[op.K] = true
+				want = got
+			}
 			if got != want {
 				r.viol("C06", "set-verdict", fmt.Sprintf("%s costfn=%v want=%v", op.Kind, cfg.CostFn, want),
 					"call %d %s with value %d (cost argument %d, effective cost %d, MaxSize %d) returned %v", i, op, v, cost, eff, apiMax, got)
@@ -539,15 +555,10 @@ func apiNotes(ns []apiNote) string {
 func apiCfgs() []apiCfg {
 	var out []apiCfg
 	for _, kind := range []string{"plain", "loading", "loading-bwl", "hybrid", "hybrid-loading", "loading-hybrid"} {
-		for _, cf := range []bool{false, true} {
-			for _, pool := range []bool{false, true} {
-				if pool && cf {
-					continue // the two options do not interact in the wrappers; 3 of the 4 combinations
-				}
-				out = append(out, apiCfg{kind, cf, pool})
-			}
-		}
+		// one option at a time (they do not interact in the wrappers), plus none
+		out = append(out, apiCfg{Kind: kind}, apiCfg{Kind: kind, CostFn: true}, apiCfg{Kind: kind, Pool: true}, apiCfg{Kind: kind, StrKey: true})
 	}
+	out = append(out, apiCfg{Kind: "plain", DK: true})
 	return out
 }
 
